@@ -164,7 +164,18 @@ pub fn run_stream<R: Read>(mut r: R, bufsize: usize, zero: bool) -> Result<RObs,
 
 /// Streaming route where the caller takes only the first `k` bytes of every entry and then releases it: the reader
 /// has to skip the rest by itself, whatever the underlying stream does.
+thread_local! {
+    /// I/O call counter probe for `run_stream_partial` (set by a caller that wants to know which calls happen while an entry
+    /// is being released) and the spans [first, last) of call indices it recorded during the last run
+    pub static CALL_PROBE: std::cell::RefCell<Option<Box<dyn Fn() -> u64>>> = const { std::cell::RefCell::new(None) };
+    pub static RELEASE_SPANS: std::cell::RefCell<Vec<(u64, u64)>> = const { std::cell::RefCell::new(Vec::new()) };
+}
+fn probe_calls() -> Option<u64> {
+    CALL_PROBE.with(|p| p.borrow().as_ref().map(|f| f()))
+}
+
 pub fn run_stream_partial<R: Read>(mut r: R, k: usize) -> Result<RObs, String> {
+    RELEASE_SPANS.with(|s| s.borrow_mut().clear());
     guard(|| {
         let mut o = RObs { open: Ok(()), comment: vec![], entries: vec![] };
         loop {
@@ -187,6 +198,12 @@ pub fn run_stream_partial<R: Read>(mut r: R, k: usize) -> Result<RObs, String> {
                     }
                     buf.truncate(got);
                     o.entries.push(EObs { meta, content: res.map(|_| buf), post_eof_zero: true, extra: vec![], comment: String::new() });
+                    // the entry is released here: the reader skips what was not consumed
+                    let before = probe_calls();
+                    drop(f);
+                    if let (Some(a), Some(b)) = (before, probe_calls()) {
+                        RELEASE_SPANS.with(|s| s.borrow_mut().push((a, b)));
+                    }
                 }
                 Ok(None) => break,
                 Err(e) => {
